@@ -1,10 +1,12 @@
 import SeqVerif.Model.Bulk
 import SeqVerif.Model.BulkTime
+import SeqVerif.Model.BulkIndex
 /-!
-# The meta `processor.Process` attaches to a stored document: ID time by the time rule, `Size = len(doc)`
+# The metas `processor.Process` returns for a stored document: ID time by the time rule, `Size = len(doc)`,
+tokens by `indexer.Index`, one more `Size = 0` meta per nested element
 -/
 namespace SV.Bulk
-open SV.BulkTime
+open SV.BulkTime SV.BulkIndex
 
 /-- what `Process` needs besides the document: the drift test, the document's own time as found by
 `extractDocTime` (oracle: JSON field lookup and `time.Parse`), the request time and the two drifts (ns) -/
@@ -15,8 +17,16 @@ structure TimeCfg where
   drift : Int
   fut : Int
 
-/-- `id := seq.NewID(docTime, ...)`, `p.indexer.Index(node, id, uint32(len(doc)))` -/
-def metaFor (T : TimeCfg) (d : Bytes) : Meta :=
-  ⟨docMID T.delayed (T.timeOf d) T.req T.drift T.fut, d.length % 4294967296⟩
+/-- the index side: tokenizer configuration, mapping, the decoded tree of a document (oracle: insane-json) and the
+random part of its ID (oracle: `rand.Uint64()<<16 + proxyIndex`) -/
+structure IndexCfg where
+  c : SV.Tok.TokCfg
+  mp : Bytes → MTypes
+  tree : Bytes → JV
+  ridOf : Bytes → Nat
+
+/-- `id := seq.NewID(docTime, ...)`; `p.indexer.Index(node, id, uint32(len(doc)))`; `return doc, p.indexer.Metas()` -/
+def metasFor (T : TimeCfg) (I : IndexCfg) (d : Bytes) : List Meta :=
+  docMetas (docMID T.delayed (T.timeOf d) T.req T.drift T.fut) (I.ridOf d) (indexDoc I.c I.mp (I.tree d)) d
 
 end SV.Bulk
